@@ -268,7 +268,42 @@ def _filter_pair(M):
     return FilterPair()
 
 
-register(QF + 'filter_pair', [_filter_pair(M) for M in SETM], props=('C04', 'C08', 'C09', 'C14'))
+def _filter_pair_int(M):
+    """EDIT_DISTANCE / OVERLAP (integer threshold): exact -- the counts alone decide (C14): EDIT_DISTANCE keeps a pair
+    iff the two token counts differ by at most the threshold (two token-less values are kept); OVERLAP keeps it
+    iff the right count reaches the threshold (two token-less values are dropped)"""
+    class FilterPairInt(Case):
+        name = M
+        params = OD([('self', filter_obj(M, INT)), ('lstring', VAL), ('rstring', VAL)])
+        returns = BOOL
+
+        def requires(self, c):
+            t = c.f(c.p('self'), 'threshold')
+            return [('threshold-valid', t >= 0 if M == 'EDIT_DISTANCE' else t > 0), ('token-count-domain', S.toks_bounded())]
+
+        def setup(self, c):
+            return S.toks_axioms()
+
+        def ensures(self, c, res):
+            f = c.p('self')
+            l, r = c['lstring'], c['rstring']
+            rs = c.f(c.field(f, 'tokenizer'), 'return_set')
+            t = c.f(f, 'threshold')
+            nl, nr = L_len(LV, S.toks(rs, l)), L_len(LV, S.toks(rs, r))
+            missing = z3.Or(N.val_isnull(l), N.val_isnull(r))
+            if M == 'EDIT_DISTANCE':
+                both_empty_result = z3.BoolVal(False)
+                kept = z3.And(nl - t <= nr, nr <= nl + t)
+            else:
+                both_empty_result = z3.BoolVal(True)
+                kept = z3.And(t <= nr, nr <= MAXSIZE)
+            return [('exact', res.t == z3.If(missing, z3.Not(c.f(f, 'allow_missing')),
+                                             z3.If(z3.And(nl == 0, nr == 0), both_empty_result, z3.Not(kept))))]
+    return FilterPairInt()
+
+
+register(QF + 'filter_pair', [_filter_pair(M) for M in SETM] + [_filter_pair_int(M) for M in ('EDIT_DISTANCE', 'OVERLAP')],
+         props=('C04', 'C08', 'C09', 'C14'))
 
 
 # ============================================================================ _filter_tables_split
